@@ -422,6 +422,12 @@ func (r *Runner) execSelect(st *State, f *Frame, x *ssa.Select) {
 }
 
 func (r *Runner) execGo(st *State, f *Frame, x *ssa.Go) {
+	// ghost counter of goroutines started on this path (see the nogo clause, checked at return)
+	if g, ok := st.ghost["go_count"]; ok {
+		st.ghost["go_count"] = Add(g, One)
+	} else {
+		st.ghost["go_count"] = One
+	}
 	r.note("goroutine body not part of this function's verification: " + exprText(f.fn, x.Call.Value))
 	r.yield(st)
 }
